@@ -35,7 +35,7 @@ func init() {
 			ruleStoreErrorsPropagate(c, "C05.R8")
 		}})
 	register(&propDef{ID: "C08", Title: "Multi-IP requests get one IP per range, all or nothing",
-		Explanation: "Decides: (R1-R3 = C05.R2) rollback loop + non-nil error on a failed create, memory only after all creates, ErrNoEnoughIP unreachable after a create; (R4) a candidate is picked only if it is in the unallocated table, its pool lists the node subnet, and it was not chosen for an earlier range; (R5) in Bind the pod is bound only after allocateIP succeeded. (R9) the rollback loop reaches index 0 (ascending from 0 or descending while j >= 0), and a reload attaches a stored ip to the pool whose ranges contain it. Does not decide 'i-th IP in i-th range', result order, or partially pre-owned ranges (index arithmetic over runtime slices).",
+		Explanation: "Decides: (R1-R3 = C05.R2) rollback loop + non-nil error on a failed create, memory only after all creates, ErrNoEnoughIP unreachable after a create; (R4) a candidate is picked only if it is in the unallocated table, its pool lists the node subnet, and it was not chosen for an earlier range; (R5) in Bind the pod is bound only after allocateIP succeeded. (R9) the rollback loop reaches index 0 (ascending from 0 or descending while j >= 0), and a reload attaches a stored ip to the pool whose ranges contain it. Does not decide 'i-th IP in i-th range', result order, or partially pre-owned ranges (index arithmetic over runtime slices). (R10 = C04.R10) the UID refusal of allocateIP precedes every allocator call: a refused bind has allocated nothing. (R11) deleteFloatingIP has no return that does not pass the client's Delete and does not read the in-memory tables.",
 		Assumptions: []string{"paths are CFG paths"},
 		Run: func(c *Ctx) {
 			c.Rule("C08.R1", "multi-IP rollback / memory after all creates / nothing created before ErrNoEnoughIP", 1)
@@ -48,6 +48,10 @@ func init() {
 			ruleStoreErrorsPropagate(c, "C08.R7")
 			ruleStoreFirst(c, "C08.R7")
 			ruleOnlyUnallocatedCreated(c, "C08.R7")
+			c.Rule("C08.R10", "a bind refused by the UID guard has allocated nothing", 2)
+			ruleUIDGuard(c, "C08.R10")
+			c.Rule("C08.R11", "the store delete primitive is unconditional (rollback deletes are never refused)", 1)
+			ruleStoreDeleteUnconditional(c, "C08.R11")
 			c.Rule("C08.R9", "the rollback covers the first created object; a reload attaches stored ips to the pool whose ranges contain them", 1)
 			ruleRollbackCoversFirst(c, "C08.R9")
 			ruleReloadPoolMatch(c, "C08.R9")
